@@ -273,6 +273,18 @@ func (g *gen) estSetup() []string {
 	start := hx.Pick(g.rng, []int64{1, 1, 1, 124, 252, 65532})
 	out = append(out, fmt.Sprintf("op alpha tick %d ?", start), fmt.Sprintf("op alpha tick %d ?", start+1))
 	g.cur = start + 1
+	// directed: the read path list -> get at the epochs where the encoding changes length (0 = empty encoding, so the
+	// listed id is exactly "cnr"‖cid; 1; 127/128; 255/256), each read right after the put (before any cleanup)
+	for i, e := range []int64{0, 1, 127, 128, 255, 256} {
+		node := g.w.pool[i%3]
+		cid := g.cids[i%2]
+		out = append(out,
+			fmt.Sprintf("op %s cput %d %s %d %s ? ?", hx.Hex(node), e, hx.Hex(cid), 10+i, hx.Hex(node)),
+			fmt.Sprintf("op - clist %d", e),
+			fmt.Sprintf("op - cget %s", hx.Hex(cat([]byte("cnr"), encInt(big.NewInt(e)), cid))),
+			fmt.Sprintf("op - citer %d %s", e, hx.Hex(cid)))
+		g.epochs = append(g.epochs, e)
+	}
 	return out
 }
 
@@ -409,7 +421,11 @@ func (g *gen) nextEst() string {
 		}
 		return fmt.Sprintf("op - citer %d %s", g.estEpoch(), hx.Hex(cid))
 	}
-	id := cat([]byte("cnr"), encInt(big.NewInt(g.estEpoch())), hx.Pick(g.rng, g.cids))
+	ge := g.estEpoch()
+	if len(g.epochs) > 0 && g.rng.IntN(2) == 0 {
+		ge = hx.Pick(g.rng, g.epochs)
+	}
+	id := cat([]byte("cnr"), encInt(big.NewInt(ge)), hx.Pick(g.rng, g.cids))
 	switch g.rng.IntN(12) {
 	case 0:
 		id = id[3:]
